@@ -5,6 +5,15 @@ here = os.path.dirname(os.path.dirname(os.path.abspath(__file__)))
 
 # id -> (technique, level text, level note, design ref)
 CHECKS = {
+    "C18": (
+        "Hypothesis-generated reference FASTA + features, and transcript structures; arithmetic / slice / own reverse-complement / BED12 field oracles",
+        "len(), sequence() (path or pyfaidx object, use_strand on/off, IUPAC codes in both cases, features spanning FASTA line breaks) are compared with a "
+        "slice of the generated reference and an own complement table; bed12() (id or Feature, block/thick/thin choices, name field, colour, both "
+        "always_return_list settings) with fields computed from the generated exons/CDS/UTRs, ValueError exactly when the blocks do not span, and "
+        "convert.to_bed12 on the shared fields.",
+        "Features inside the reference; non-overlapping blocks; thick fields only when thick/thin features exist.",
+        "DESIGN.md section 4 C18",
+    ),
     "C17": (
         "Hypothesis-generated mappings, mapping pairs and Feature pairs; round-trip, view-invariance, reference-union and equality-vs-printing oracles",
         "Five relations over arbitrary-Unicode mappings: values set as scalars/lists/tuples through Feature[...], .attributes[...] or update() are stored "
